@@ -10,6 +10,8 @@ from hypothesis import strategies as st
 from mv import geom
 
 ALPHABET = ["C", "N", "O", "H"]
+# alternative alphabets with one-letter / two-letter symbols sharing the first letter (C/Cl, N/Na, S/Si, C/Co)
+ALPHABETS = [["C", "N", "O", "H"], ["C", "N", "O", "H"], ["C", "N", "O", "H"], ["C", "Cl", "N", "Na"], ["S", "Si", "C", "Co"]]
 ATOLS = [0.01, 0.05, 0.1, 0.3]
 GRID = 64.0
 
@@ -391,7 +393,7 @@ def planted(draw, max_copies=4, pattern_classes=None, cell_classes=None, with_de
     cell, spos, sels, ppos, pels, atol, hints, seeds, meta"""
     atol = draw(st.sampled_from(atols or ATOLS))
     if pat is None:
-        pat = draw(pattern(classes=pattern_classes, max_atoms=max_atoms, min_atoms=min_atoms))
+        pat = draw(pattern(classes=pattern_classes, max_atoms=max_atoms, min_atoms=min_atoms, alphabet=draw(st.sampled_from(ALPHABETS))))
     ppos = np.asarray(pat["pos"], float)
     n = len(ppos)
     diam = geom.diameter(ppos) if extra_diam is None else extra_diam
@@ -460,7 +462,7 @@ def planted(draw, max_copies=4, pattern_classes=None, cell_classes=None, with_de
                 q[:, 0] = -q[:, 0]
             elif kind == "element":
                 j = draw(st.integers(0, n - 1))
-                other = [e for e in ALPHABET if e != els[j]]
+                other = [e for e in ALPHABET + ["Cl", "Na", "Si"] if e != els[j]]
                 els[j] = draw(st.sampled_from(other))
             w, _, _ = place(cell, q, R, af, np.zeros((n, 3)))
             spos += w.tolist()
